@@ -247,11 +247,16 @@ func c15r3(c *Ctx) {
 				}
 				return false
 			}
-			if fs, where, ok := s.CutInContext(pred, nil); ok {
+			// a saver with one write at its end (value = nil or Marshal(entry)): the entry is marshalled only under the condition
+			at := s
+			if _, mc, mayNil := writeValue(v, 0); mayNil && mc != nil && mc.Parent() == s.In.Parent() {
+				at = EffectSite{Env: s.Env, In: mc, Name: s.Name}
+			}
+			if fs, where, ok := at.CutInContext(pred, nil); ok {
 				c.OK(rule, FuncName(s.In.Parent()), construct, c.P.InstrPos(s.In), "cut in "+where+" by "+fs[0].String())
 			} else {
 				c.FailX(Oblig{Rule: rule, Func: FuncName(s.In.Parent()), Construct: construct, Pos: c.P.InstrPos(s.In), Kind: "violation",
-					Detail: "an entry can be stored with a zero (or negative) balance instead of being deleted", Path: s.witnessPath(pred),
+					Detail: "an entry can be stored with a zero (or negative) balance instead of being deleted", Path: at.witnessPath(pred),
 					Expected: "if Value <= 0 { delete } (NFT) / if Value == 0 && properties empty { delete } (fungible) before the marshalled write"})
 			}
 		}
